@@ -350,7 +350,25 @@ func (r *TypeSettingsRegistry) GetByValue(objValue reflect.Value, optTS ...TypeS
 		// resolve indirections
 		switch objValue.Kind() {
 		case reflect.Ptr, reflect.Interface:
-			objValue = objValue.Elem()
+			elemValue := objValue.Elem()
+			if !elemValue.IsValid() {
+				// a nil pointer or nil interface holds no value to look at: resolve a pointer by its element type
+				if objValue.Kind() == reflect.Ptr {
+					if ts, ok := r.registry.Get(objValue.Type().Elem()); ok {
+						if len(optTS) > 0 {
+							return optTS[0].merge(ts)
+						}
+
+						return ts
+					}
+				}
+				if len(optTS) > 0 {
+					return optTS[0]
+				}
+
+				return TypeSettings{}
+			}
+			objValue = elemValue
 
 		default:
 			if len(optTS) > 0 {
